@@ -26,7 +26,7 @@ MAXI = 2**53 - 1
 POOL = [
     None, True, False,
     0, 1, -1, 2, 10, MAXI, -MAXI,
-    0.0, -0.0, 1.0, 1.5, -2.5, 1e300, 2.0, 1e-7,
+    0.0, -0.0, 1.0, 1.5, -2.5, 1e300, 2.0, 1e-7, 0.3, 0.30000000000000004, 1.0000000001, 1700000000000.5, 1700000000000.25,
     "", "a", "b", "ab", "A", "é", "\U0001F600", "￿", "\U00010000", "a\x00", "1", "true", "null",
     [], [1], [1.0], [True], [1, 2], [2, 1], [[1]], [[True]], [None], ["a"], [{"k": 1}], [{"k": True}], [0], [False], [[]],
     {}, {"k": 1}, {"k": True}, {"k": 1.0}, {"k": 1, "j": 2}, {"j": 2, "k": 1}, {"k": [1]}, {"k": [True]}, {"k": None}, {"j": 1},
@@ -57,14 +57,19 @@ def producers_for(v, side, R):
     out.append(("value-wild-call", "value(@.one_%s.*)" % name, {"one_" + name: [v]}))
     if v is None or isinstance(v, (bool, int, float, str)):
         out.append(("literal", None, {}))
+    out.append(("value-of-value-call", "value(@.w_%s[?value(@) == value(@)])" % name, {"w_" + name: [v]}) if v is None or isinstance(v, (bool, int, float, str)) else
+               ("value-wild-call2", "value(@.one2_%s[*])" % name, {"one2_" + name: [v]}))
     if isinstance(v, int) and not isinstance(v, bool) and 0 <= v <= 12:
+        out.append(("length-of-value-call", "length(value(@.lenv_%s))" % name, {"lenv_" + name: "y" * v}))
         out.append(("length-call", "length(@.len_%s)" % name, {"len_" + name: "x" * v}))
         out.append(("length-array-call", "length(@.lena_%s)" % name, {"lena_" + name: [None] * v}))
         out.append(("count-call", "count(@.cnt_%s[*])" % name, {"cnt_" + name: list(range(v))}))
     return out
 
 
-def one(jp, R, lv, rv, op, pl, pr, rec, st):
+def one(jp, R, lv, rv, op, pl, pr, rec, st, sibling=None):
+    """The comparison is evaluated for `child`; an optional sibling child (other values planted under the same member
+    names, literals excepted) precedes or follows it, so that nothing computed for one child can be reused for the other."""
     child = {}
     texts = []
     for v, p in ((lv, pl), (rv, pr)):
@@ -77,14 +82,31 @@ def one(jp, R, lv, rv, op, pl, pr, rec, st):
     ws1, ws2 = st.s("before-cmp-op"), st.s("after-cmp-op")
     query = "$[?%s%s%s%s%s]" % (texts[0], ws1, op, ws2, texts[1])
     want = sem.compare(op, lv, rv)
-    o = mon.observe(jp.find, query, [child])
+    doc = [child]
+    want_locs = [(0,)] if want else []
+    if sibling is not None:
+        sl, sr, spl, spr = sibling
+        sib = {}
+        ok = True
+        for v, p, orig in ((sl, spl, pl), (sr, spr, pr)):
+            if p[0] != orig[0]:
+                ok = False
+            for k, x in p[2].items():
+                sib[k] = D.deep_copy(x)
+        if ok:
+            # literal producers keep the literal's value on that side
+            a = lv if pl[1] is None else sl
+            b = rv if pr[1] is None else sr
+            sib_want = sem.compare(op, a, b)
+            first = R.random() < 0.5
+            doc = [sib, child] if first else [child, sib]
+            want_locs = [(i,) for i, w in enumerate(([sib_want, want] if first else [want, sib_want])) if w]
+    o = mon.observe(jp.find, query, doc)
     rec.monitor("M-find")
     if o[0] != "ok":
-        return query, child, want, mon.describe_outcome(o)
-    got = len(o[1]) == 1 and o[1][0].value is child
-    if len(o[1]) > 1:
-        got = "multiple"
-    return query, child, want, got
+        return query, doc, want_locs, mon.describe_outcome(o)
+    got = [tuple(n.location) for n in o[1]]
+    return query, doc, want_locs, got
 
 
 def plan(tier, seed, nproc, scale):
@@ -111,18 +133,48 @@ def run_shard(spec, rec):
                 pl = R.choice(producers_for(lv, 0, R))
                 pr = R.choice(producers_for(rv, 1, R))
                 rec.wal([repr(lv), op, repr(rv), pl[0], pr[0]])
-                query, child, want, got = one(jp, R, lv, rv, op, pl, pr, rec, st)
+                sibling = None
+                if R.random() < 0.5 and not pl[0].startswith("abs-") and not pr[0].startswith("abs-"):
+                    # a sibling child with other values under the same producers (same member names); absolute
+                    # ($[0]...) producers are excluded because they read the first child whatever child is tested
+                    sl, sr = pool[R.randrange(len(pool))], pool[R.randrange(len(pool))]
+                    spl = next((p for p in producers_for(sl, 0, R) if p[0] == pl[0]), None)
+                    spr = next((p for p in producers_for(sr, 1, R) if p[0] == pr[0]), None)
+                    if spl is not None and spr is not None:
+                        sibling = (sl, sr, spl, spr)
+                        rec.feat("with-sibling-child")
+                query, child, want, got = one(jp, R, lv, rv, op, pl, pr, rec, st, sibling)
                 rec.case((repr(lv), repr(rv), op, pl[0], pr[0]), possible)
                 rec.feat("producer:" + pl[0])
                 rec.feat("producer:" + pr[0])
                 cell = "%s %s %s" % (kl, op, kr)
                 cells[cell] = cells.get(cell, 0) + 1
                 if possible and want:
-                    rec.sample({"query": query, "child": D.short(child), "selected": got})
+                    rec.sample({"query": query, "document": D.short(child), "selected": got})
                 if got != want:
                     rec.violation("cmp:%s %s %s" % (kl, op, kr),
-                                  {"query": query, "document": jsonable([child]), "lhs": repr(lv), "rhs": repr(rv), "op": op,
-                                   "producers": [pl[0], pr[0]], "expected_selected": want, "observed": got})
+                                  {"query": query, "document": jsonable(child), "lhs": repr(lv), "rhs": repr(rv), "op": op,
+                                   "producers": [pl[0], pr[0]], "expected_selected": [list(l) for l in want], "observed": jsonable(got)})
+    # nested-call sweep: the current node appears only inside a nested function call, several children with other values
+    if spec["shard"] == 0:
+        for a in range(0, 5):
+            for b in range(0, 5):
+                for op in OPS:
+                    for side in (0, 1):
+                        st = G.Style(R, feat=rec.features)
+                        lovc = lambda v, s_: ("length-of-value-call", "length(value(@.lenv_%s))" % ("l" if s_ == 0 else "r"), {"lenv_" + ("l" if s_ == 0 else "r"): "y" * v})  # noqa: E731
+                        litp = ("literal", None, {})
+                        c = (a + 1 + R.randrange(3)) % 5
+                        if side == 0:
+                            pl, pr, lv, rv, sib = lovc(a, 0), litp, a, b, (c, b, lovc(c, 0), litp)
+                        else:
+                            pl, pr, lv, rv, sib = litp, lovc(a, 1), b, a, (b, c, litp, lovc(c, 1))
+                        query, child, want, got = one(jp, R, lv, rv, op, pl, pr, rec, st, sib)
+                        rec.case(("nested", a, b, c, op, side), True)
+                        rec.feat("nested-call-sweep")
+                        if got != want:
+                            rec.violation("cmp:nested-call int %s int" % op, {"query": query, "document": jsonable(child), "op": op,
+                                                                              "expected_selected": [list(l) for l in want], "observed": jsonable(got)})
     rec.extra["cell_table"] = cells
     rec.exhaustive = True
 
@@ -143,6 +195,6 @@ def replay(case, rec):
     rec.monitor("M-find")
     rec.case(case["query"], True)
     rec.case(case["query"] + "#", True)
-    got = (len(o[1]) == 1) if o[0] == "ok" else mon.describe_outcome(o)
+    got = [list(n.location) for n in o[1]] if o[0] == "ok" else mon.describe_outcome(o)
     if got != case["expected_selected"]:
         rec.violation("cmp:replay", dict(case, observed=got))
